@@ -96,6 +96,19 @@ pub fn generate(rng: &mut Rng, tier: &str, shard: usize, nshards: usize, out: &m
             for kind in ["display", "tostring", "display_ref"] { emit(format!("C04\trender\t{}\t{}\t{}", kind, show(&d), cs), &mut n); }
         }
     }
+    // zeros and tiny values under the configured mode: {:.N} / {:.Ne} of 0 written with any scale must print zeros
+    // (under Up / Ceiling a wrong 'first dropped digit' would print 0.01), and of values far below one unit of the
+    // last printed place must follow the configured mode
+    for sc in [0i64, 1, 2, 3, 5, 8, 13, 21] {
+        for p in [0i64, 1, 2, 4, 7] {
+            for iv in [0i64, 1, -1, 5, -5, 49, 50, 51, -50] {
+                let d = dec(BigInt::from(iv), sc);
+                for kind in ["display", "e"] {
+                    emit(format!("C16\tfmt\t{}\t \t-\t0\t0\t-\t{}\t{}\t{}", kind, p, show(&d), cs), &mut n);
+                }
+            }
+        }
+    }
     let total = if thorough { 40_000 } else { 4_000 };
     for _ in 0..total {
         let sa = rng_scale(rng);
